@@ -2,11 +2,11 @@
    [image rho rs rs'] says that the cluster list of rs' is the cluster list of rs with every
    cluster c replaced by rho c (any number of code points or bytes each). Proved so far for
    the operations whose results are characterised cluster-wise: Chars and its variants, Insert,
-   the three line-alignment functions and CollapseSpace. *)
+   the three line-alignment functions, CollapseSpace and Wrap. *)
 From Coq Require Import List Bool ZArith Lia.
 Import ListNotations.
 From Rosed Require Import Base.Res Base.ListX Base.Utf8 Gem.Segment Gem.GString Model.Manip Model.Table Model.Options Model.Editor Model.Ops
-     Base.Str Check.Common Proofs.SeamP Proofs.C04P Proofs.C13P Proofs.C03P Proofs.C07Q.
+     Base.Str Check.Common Proofs.SeamP Proofs.C04P Proofs.C13P Model.Tb Proofs.C03P Proofs.C07Q Proofs.C03W.
 Open Scope Z_scope.
 
 Theorem C03_chars : forall (C : Classifier) (U : Upper) rho rs rs' o ref s e, scalars rs -> scalars rs' -> image rho rs rs' ->
@@ -56,3 +56,17 @@ Theorem C03_collapse_space : forall (C : Classifier) (K : ClassifierOk) (U : Upp
   clusters r' = map (fun c => if is_sp c then c else rho c) (clusters r).
 Proof. intros C K U. exact collapse_space_image. Qed.
 Print Assumptions C03_collapse_space.
+
+(* Wrap: if the clusters of the collapsed text ct' are those of ct replaced one for one by a
+   substitution that fixes the space and the hyphen cluster and keeps the others from looking
+   like a space, then the wrapped lines correspond one to one, each line of the image being the
+   image of the line - the line breaks fall at the same cluster positions *)
+Theorem C03_wrap : forall (C : Classifier) (K : ClassifierOk) (U : Upper) (rho : list Z -> list Z),
+  rho [SP] = [SP] -> rho [HYPHEN] = [HYPHEN] -> (forall c, (first_rune (rho c) =? SP) = (first_rune c =? SP)) ->
+  forall text text' w sep ct ct' b b',
+  collapse_space text sep = Ok ct -> collapse_space text' sep = Ok ct' -> all_safe ct -> all_safe ct' ->
+  clusters ct' = map rho (clusters ct) ->
+  wrap text w sep = Ok b -> wrap text' w sep = Ok b' ->
+  Forall2 (image rho) (b_lines b) (b_lines b').
+Proof. intros C K U. exact wrap_image. Qed.
+Print Assumptions C03_wrap.
